@@ -8,3 +8,16 @@ verif_tq_at(struct timerqueue * Q, size_t i, struct timeval * tv, void ** ptr, s
 	struct timerrec * r = verif_ptrheap_at(Q->H, i);
 	*tv = r->tv; *ptr = r->ptr; *rc = r->rc;
 }
+/* C13: handle (= record address) of the i-th record in heap-array order */
+void * verif_tq_cookie_at(struct timerqueue * Q, size_t i){ return (verif_ptrheap_at(Q->H, i)); }
+/* C13: append a record at the end of the heap array without sifting (restores a snapshot); returns the handle */
+int verif_ptrheap_place(struct ptrheap *, void *);
+void *
+verif_tq_place(struct timerqueue * Q, const struct timeval * tv, void * ptr)
+{
+	struct timerrec * r = malloc(sizeof(struct timerrec));
+	if (r == NULL) return (NULL);
+	r->tv = *tv; r->ptr = ptr; r->rc = verif_ptrheap_n(Q->H);
+	if (verif_ptrheap_place(Q->H, r)) { free(r); return (NULL); }
+	return (r);
+}
